@@ -95,7 +95,7 @@ type DomainSetConfig struct {
 type RuleConfig struct {
 	Reverse bool   `yaml:"reverse"`
 	Domain  string `yaml:"domain"`
-	Reject  uint16 `yaml:"reject"`
+	Reject  int    `yaml:"reject"` // rcode, 0 (no reject) ~ 15
 	Forward string `yaml:"forward"`
 }
 
